@@ -129,11 +129,13 @@ def handle(c):
             if not same(a_out[k], v, 0):
                 bad('%s: get_val(%s) = %r, recorded %r' % (lab, k, a_out[k].tolist(), v.tolist()))
         cout_d = dict(cout)
+        lag = False
         for k, v in cin:
-            if c.get('lagging') and conns[k] in cout_d and not same(cout_d[conns[k]], v, 0):
+            if conns[k] in cout_d and not same(cout_d[conns[k]], v, tol):
                 # recorded in the middle of an iteration: this input lags its source; a connected input reads its
                 # source, so only the model comparison (below) says what get_val must return here
                 stats['lagging_inputs'] = stats.get('lagging_inputs', 0) + 1
+                lag = True
                 continue
             stats['values'] += 1
             if not same(a_in[k], v, tol):
@@ -152,7 +154,7 @@ def handle(c):
                     bad('%s: input %s (source %s) is not in the case but changed from %r to %r' % (
                         lab, k, conns[k], b_in[k].tolist(), a_in[k].tolist()))
         complete = set(outs) <= {k for k, _ in cout}
-        if complete and not c.get('lagging'):
+        if complete and not c.get('lagging') and not lag:
             try:
                 q.run_model()
                 r_in, r_out = snapshot(q, ins, outs)
